@@ -74,7 +74,7 @@ func genC19(g *Gen, tier string, idx int) *wire.Scenario {
 				}
 				b.Macro = string(body)
 			} else {
-				b.Func = Pick(g, []string{"beginning-of-line", "end-of-line", "kill-line", "undo", "forward-word", "Kill-Line", "UNDO", "Transpose-Chars", "no-such-function"})
+				b.Func = Pick(g, []string{"beginning-of-line", "end-of-line", "kill-line", "undo", "forward-word", "Kill-Line", "UNDO", "Transpose-Chars", "no-such-function", "App-Reload", "appSync", "app-plain"})
 			}
 			x.Binds = append(x.Binds, b)
 		}
@@ -106,6 +106,7 @@ func genC19(g *Gen, tier string, idx int) *wire.Scenario {
 		}
 	}
 	km := "emacs"
+	env.AppCommands = []string{"App-Reload", "appSync", "app-plain"} // registered by the application; names are matched as written
 	env.Binds = append(env.Binds, g.Cat.Extra...)
 	switch x.Kind {
 	case "dump-functions", "dump-variables", "dump-macros":
